@@ -625,6 +625,29 @@ impl Prop for C19 {
             };
             events.push((t, ev));
         }
+        // the visitor breaks into the loaded program, edits or deletes one of its lines and then tries to
+        // resume into it: whatever error that gives must still be rendered, not trap
+        if let (Some(text), true) = (&load, rng.chance(1, 30)) {
+            let nums: Vec<u64> = text.lines().filter_map(|l| l.trim_start().split(|c: char| !c.is_ascii_digit()).next().and_then(|d| d.parse().ok())).collect();
+            if !nums.is_empty() {
+                let mut tt = rng.below(40) as u32;
+                let mut script = vec![(tt, Ev::CtrlC)];
+                for _ in 0..1 + rng.usize(2) {
+                    tt += 1 + rng.below(20) as u32;
+                    let n = rng.pick(&nums);
+                    script.push((tt, Ev::Submit(if rng.chance(2, 3) { format!("{n}") } else { format!("{n} PRINT {n}") })));
+                }
+                for _ in 0..1 + rng.usize(3) {
+                    tt += 1 + rng.below(20) as u32;
+                    script.push((tt, Ev::Submit(rng.pick(&["READ C", "READ C$", "READ C, J, K", "CONT", "NEXT C", "RETURN", "PRINT FNC(1)", "GOTO 10", "RESTORE : READ Q"]).to_string())));
+                }
+                for (k, e) in script.into_iter().enumerate() {
+                    events.insert(k.min(events.len()), e);
+                }
+                events.sort_by_key(|e| e.0);
+                t = t.max(tt);
+            }
+        }
         // one call that yields hundreds of output records: LIST of a long program (every record must reach
         // the page in the take that follows the call)
         let mut load = load;
